@@ -337,3 +337,32 @@ def getFetch (s : State) (sn : Snapshot) : State × List Nat :=
   | (.tooLarge, none) => (install .tooLarge, streamIter s.db sn)
 
 end QbiceVerif.SetCache
+
+namespace QbiceVerif.SetCache
+
+/-! ### `get` on a miss, split into its three phases (snapshot – store scan – overlay + install)
+
+In the code the staging snapshot is taken by `get_entry` BEFORE `fetch_entry` scans the store, and the
+set that is cached is `scan ∪ snapshot.added ∖ snapshot.removed`.  A background commit and its
+`FlushUpTo` may fall between the scan and the install.  `getInstall s sn scanned` is the last phase:
+`s` is the state at install time, `sn` the snapshot and `scanned` the store image that was read. -/
+
+def fetchFrom (thr : Nat) (scanned : List Nat) (sn : Snapshot) : SEntry × Option (List Nat × List Nat) :=
+  if scanned.length > thr then (.tooLarge, some (scanned.take (thr + 1), scanned.drop (thr + 1)))
+  else (.inMem (sn.removed.foldl (fun acc x => sremove x acc) (sn.added.foldl (fun acc x => sinsert x acc) scanned)), none)
+
+def getInstall (s : State) (sn : Snapshot) (scanned : List Nat) : State × List Nat :=
+  let install (e : SEntry) : State := match s.entry with
+    | none => { s with entry := some e }
+    | some _ => s
+  match fetchFrom s.thr scanned sn with
+  | (e, some (half, rest)) => (install e, spillIter s.cfg half rest sn)
+  | (.inMem set, none) => (install (.inMem set), set)
+  | (.tooLarge, none) => (install .tooLarge, streamIter scanned sn)
+
+/-- background events only -/
+def isBackground : Ev → Bool
+  | .commit | .notify | .evictEntry | .evictLog => true
+  | _ => false
+
+end QbiceVerif.SetCache
